@@ -29,6 +29,7 @@ func runC16(c *core.Ctx) {
 	c.RuleDoc("R16.5", "listing failure wrapped in *PathError")
 	c.RuleDoc("R16.10", "the cache's info memo holds the source's Stat of the full name only (= R10.3)")
 	c.RuleDoc("R16.11", "no file system handed out derives from a one-time route resolution (= R07.4)")
+	c.RuleDoc("R16.12", "a paging ReadDir moves its cursor by exactly the number of entries of the page it returns")
 	c.RuleDoc("R16.9", "the cursor of a paging ReadDir moves only for a page that is returned")
 	c.RuleDoc("R16.8", "the mount table matches names against mount points on path-element boundaries (listed siblings are Stat'ed in the file system that listed them)")
 	c.RuleDoc("R16.7", "the page end is computed without integer overflow")
@@ -62,6 +63,7 @@ func runC16(c *core.Ctx) {
 			r16Window(c, p, tk, fn, win)
 			r16NoOverflow(c, p, tk, fn)
 			r16CursorAfterSuccess(c, p, tk, fn)
+			r16CursorMovesByPage(c, p, tk, fn, win, "R16.12")
 		}
 		c.Info("readdir_delegating_"+p.Target.GOOS, delegating)
 		if windowing < 2 {
@@ -91,6 +93,7 @@ func runC16(c *core.Ctx) {
 	c.Floor("R16.7", 2)
 	c.Floor("R16.8", 1)
 	c.Floor("R16.9", 2)
+	c.Floor("R16.12", 2)
 	c.Floor("R16.10", 1)
 	c.Floor("R16.11", 8)
 	c.Floor("R16.1", 2)
@@ -884,4 +887,68 @@ func r16CursorAfterSuccess(c *core.Ctx, p *load.Program, tk string, fn *ssa.Func
 	}
 	c.Check(bad == "", "R16.9", tk+".ReadDir|cursor-advanced-only-for-a-returned-page", p.Pos(fn.Pos()), "no failing return is reachable after the cursor was advanced",
 		fmt.Sprintf("%s advances the handle's cursor and can still fail afterwards (return at %s): the entries of the failed page are consumed — a caller that keeps paging gets a, b, e, f, g of a..g, and a retried ReadDir(-1) answers an empty list with a nil error", fname(fn), bad))
+}
+
+// r16CursorMovesByPage (R16.12 / R10.13): on every path to a store of the paging cursor, the stored value is the old
+// cursor plus (high - low) of the listing window the call returns, as linear forms with the phis resolved per path.
+// "cursor = end" agrees with that while the cursor lies inside the listing, and differs once a Seek has put it past
+// the end (start is clamped to the length, the cursor is pulled back to it): sibling implementations then disagree on
+// every later relative Seek.
+func r16CursorMovesByPage(c *core.Ctx, p *load.Program, tk string, fn *ssa.Function, win []*ssa.Slice, rule string) {
+	cur, stores := cursorField(fn)
+	if cur == "" || len(stores) == 0 || len(win) == 0 {
+		return
+	}
+	recv := recvParam(fn)
+	var ps0 *ssax.PathState
+	atom := func(v ssa.Value) (string, bool) {
+		v = ssax.StripIntConv(v)
+		if isLoadOfField(v, recv, cur) {
+			return "CURSOR", true
+		}
+		if cl, ok := v.(*ssa.Call); ok {
+			if b, ok := cl.Call.Value.(*ssa.Builtin); ok && b.Name() == "len" {
+				x := cl.Call.Args[0]
+				if ps0 != nil {
+					x = ps0.Resolve(x)
+				}
+				return fmt.Sprintf("len(%p)", x), true
+			}
+		}
+		return "", false
+	}
+	for i, st := range stores {
+		key := tk + ".ReadDir|" + fmt.Sprintf("cursor-moves-by-the-page#%d", i+1)
+		paths, okPaths := 0, 0
+		complete := ssax.EnumPaths(fn, fn.Blocks[0], 0, ssax.NewPathState(), ssax.PathHooks{
+			Instr: func(ps *ssax.PathState, ins ssa.Instruction) {
+				if ins != ssa.Instruction(st) || ps.Counts["seen"] == 1 {
+					return
+				}
+				ps.Counts["seen"] = 1
+				paths++
+				ps0 = ps
+				stored := linOfWith(ps, st.Val, 0, atom)
+				curF := linForm{atoms: map[string]int64{"CURSOR": 1}}
+				for _, w := range win {
+					if w.Low == nil || w.High == nil {
+						continue
+					}
+					want := curF.add(linOfWith(ps, w.High, 0, atom), 1).add(linOfWith(ps, w.Low, 0, atom), -1)
+					if stored.equal(want) {
+						okPaths++
+						return
+					}
+				}
+			},
+		})
+		switch {
+		case !complete:
+			c.Unknown(rule, key, p.Pos(st.Pos()), "path enumeration exceeded its cap")
+		case paths > 0 && paths == okPaths:
+			c.OK(rule, key, p.Pos(st.Pos()), fmt.Sprintf("on each of %d paths the stored cursor is the old cursor plus the size of the returned window", paths))
+		default:
+			c.Bad(rule, key, p.Pos(st.Pos()), fmt.Sprintf("%s: on %d of %d paths the cursor stored at %s is not 'old cursor + (high - low)' of the page returned: with the cursor beyond the end of the listing (after a Seek) the start is clamped and the cursor is pulled back to the listing's length, where the sibling implementation leaves it — every later relative Seek and page then differs between a file system and a cache or view of it", fname(fn), paths-okPaths, paths, p.Pos(st.Pos())))
+		}
+	}
 }
